@@ -7,7 +7,9 @@
 //!     world k listens on `unix:%D/s<k>.sock`; the resolver (interface org.varlink.resolver with the
 //!               given table; the j-th Resolve call answers address min(j, last) of the entry) on
 //!               `unix:%D/resolver.sock`, passed with `--resolver`
-//!     client  = pipelined | stepwise | closeearly | svcexit
+//!     client  = pipelined | stepwise | closeearly | svcexit | slowread
+//!               slowread: like pipelined, but the client starts reading 700 ms late (what the bridge
+//!               writes meanwhile piles up in the 64 KiB pipe and then in the bridge)
 //!               svcexit (modes activate / bridgecmd): like pipelined, but instead of closing its side the
 //!               client waits while the harness kills the service process: the bridge must stop by itself
 //!     item    = (rq b<frame>) | (payload b<chunk>*) | (tail b<bytes>)
@@ -204,11 +206,18 @@ struct Collector {
 }
 
 impl Collector {
-    fn start<R: Read + Send + 'static>(mut r: R) -> Collector {
+    fn start<R: Read + Send + 'static>(r: R) -> Collector {
+        Collector::start_delayed(r, Duration::from_millis(0))
+    }
+    /// a reader that takes its time before the first read (a slow client: the writer's pipe fills up)
+    fn start_delayed<R: Read + Send + 'static>(mut r: R, delay: Duration) -> Collector {
         let buf = Arc::new(Mutex::new(Vec::new()));
         let eof = Arc::new(std::sync::atomic::AtomicBool::new(false));
         let (b2, e2) = (buf.clone(), eof.clone());
         std::thread::spawn(move || {
+            if delay > Duration::from_millis(0) {
+                std::thread::sleep(delay);
+            }
             let mut tmp = [0u8; 8192];
             loop {
                 match r.read(&mut tmp) {
@@ -755,7 +764,8 @@ fn run_proxy(ctx: &Ctx, l: &[Sx]) -> Sx {
         "activate" => {
             let k = c.mode.as_list().unwrap()[1].as_usize().unwrap();
             let dump = format!("{}/dump{}.json", sub.dir, k);
-            cmd.arg("-A").arg(format!("{} serve {}/spec{} $VARLINK_ADDRESS --idle 3 --dump {}", helper, sub.dir, k, dump)).arg("bridge");
+            // the service prints a banner on its stdout: that must never reach the client's reply stream
+            cmd.arg("-A").arg(format!("{} serve {}/spec{} $VARLINK_ADDRESS --idle 3 --dump {} --banner", helper, sub.dir, k, dump)).arg("bridge");
             extra_pid_files.push(dump);
         }
         "bridgecmd" => {
@@ -770,7 +780,11 @@ fn run_proxy(ctx: &Ctx, l: &[Sx]) -> Sx {
     cmd.stdin(Stdio::piped()).stdout(Stdio::piped()).stderr(Stdio::null());
     let mut child = cmd.spawn().expect("spawn varlink");
     let mut stdin = child.stdin.take().map(AsyncWriter::new);
-    let coll = Collector::start(child.stdout.take().unwrap());
+    let coll = if c.client == "slowread" {
+        Collector::start_delayed(child.stdout.take().unwrap(), Duration::from_millis(700))
+    } else {
+        Collector::start(child.stdout.take().unwrap())
+    };
     let mut guard = ChildGuard::new(child);
 
     let direct_mode = tag == "connect" || tag == "activate" || tag == "bridgecmd";
@@ -1248,6 +1262,13 @@ fn gen_hard_request(rng: &mut Rng, gw: &GenWorld, tok: &str, tags: &mut Vec<Stri
         }
     };
     let _ = gw;
+    let mut v = v;
+    // a oneway call is never answered — also not by the bridge when it would have to answer itself
+    let self_answered = tags.iter().any(|t| ["hard:unknown-interface", "hard:nodot", "hard:unreachable", "hard:getdesc-noparams", "hard:getdesc-unknown"].contains(&t.as_str()));
+    if self_answered && rng.chance(1, 3) {
+        v["oneway"] = json!(true);
+        tags.push("hard:oneway".into());
+    }
     serde_json::to_vec(&v).unwrap()
 }
 
@@ -1344,6 +1365,21 @@ impl Suite for ProxySuite {
                 frames.splice(at..at, vec![mk(&format!("k{}z", tok - 2)), middle, mk(&format!("k{}z", tok))]);
                 tags.push("resolver-detour".into());
             }
+            // a slow reader behind a pump whose service drops the connection right after a last reply that is
+            // larger than every buffer in between: when either side closes, everything received is forwarded
+            let svc0 = match &mode {
+                Sx::List(l) if mtag == "activate" || mtag == "bridgecmd" => l[1].as_usize() == Some(0),
+                Sx::List(l) if mtag == "connect" => l[1].as_str().map(|a| a.contains("s0.sock")).unwrap_or(false),
+                _ => false,
+            };
+            if svc0 && hard_at == usize::MAX && rng.chance(1, 4) {
+                client = "slowread";
+                frames.truncate(3);
+                tok += 1;
+                let n = *rng.pick(&[100_000usize, 163_000, 400_000]);
+                frames.push(serde_json::to_vec(&json!({"method":"org.example.abort.ReplyThenAbort","parameters":{"delay_ms":0,"pad_bytes":n,"token":format!("k{}z", tok)}})).unwrap());
+                tags.push("slowread-big-last-reply".into());
+            }
             tags.push(format!("client:{}", client));
             // upgraded sessions: single-reply requests first, then the upgrade, then a payload
             let mut payload = None;
@@ -1353,7 +1389,7 @@ impl Suite for ProxySuite {
                 Sx::List(l) if mtag == "connect" => l[1].as_str().map(|a| a.contains("s0.sock")).unwrap_or(false),
                 _ => true,
             };
-            if hard_at == usize::MAX && client != "closeearly" && up_possible && rng.chance(1, 5) {
+            if hard_at == usize::MAX && client != "closeearly" && client != "slowread" && up_possible && rng.chance(1, 5) {
                 frames.retain(|f| {
                     let (o, _) = frame_flags(f);
                     let more = serde_json::from_slice::<varlink::Request>(f).ok().and_then(|r| r.more).unwrap_or(false);
